@@ -912,6 +912,34 @@ theorem inv_svcCreate {inst c} {s : St} (h : Inv inst c s) (o : Own) (env : Opti
         exact key _ _ _ _ (fun p hp => Or.inl hp)
     · rw [e1.1]; exact h
 
+/-- A create request whose veth creation fails keeps the invariant: the address it allocated is
+    linked to the requester and remembered in the device table. -/
+theorem inv_svcCreateCut {inst c} {s : St} (h : Inv inst c s) (o : Own) (env : Option Bool)
+    (ho : inst o = false) : Inv inst c (svcCreateCut s o env).1 := by
+  unfold svcCreateCut
+  cases env with
+  | none => exact h
+  | some prod =>
+    simp only
+    rcases svcAddr_spec s o with ⟨a, e1, e2, e3, e4⟩ | ⟨d, a, e1, e2, e3⟩ | ⟨r, e1⟩
+    · rw [e1]
+      simp only [Bool.false_eq_true, ↓reduceIte]
+      refine h.grow (.svip a) (.own o) e3 rfl rfl ?_ ?_ ?_ ?_ ?_
+      · intro o' ho'; injection ho' with ho'; rw [← ho']; exact ho
+      · intro q hq; exact Or.inl hq
+      · intro e he a0 ha
+        rcases mem_devSet he with h1 | ⟨h1, _⟩
+        · right; rw [h1] at ha ⊢; simp only at ha ⊢; injection ha with ha; rw [ha]; simp
+        · exact Or.inl ⟨e.2, h1, ha⟩
+      · intro o' a0 _ hka; cases hka
+      · intro o' a0 _ hka; injection hka with hka; rw [← hka]; exact e4
+    · rw [e1]
+      simp only
+      cases hd : d.hasDev with
+      | true => simpa using inv_svcCreate h o (some prod) ho
+      | false => simpa using h
+    · rw [e1.1]; exact h
+
 /-- `on_delete_request(o)`: the owner's own release, or (in `synchronize`) of a dead owner. -/
 theorem inv_svcDelete {inst c} {s : St} (h : Inv inst c s) (o : Own) (b : Bool)
     (hb : b = true ∨ o ∉ s.live) : Inv inst c (svcDelete s o b).1 := by
@@ -1127,6 +1155,7 @@ theorem inv_step {inst c} (hv : c.valid) {s : St} (h : Inv inst c s) (op : Op)
   | epGc => exact inv_gcOp h .ep (by decide)
   | svcRestart => exact inv_svcRestart h
   | svcCreate o env => exact inv_svcCreate h o env (by simpa [opOk, ownerOk] using hok)
+  | svcCreateCut o env => exact inv_svcCreateCut h o env (by simpa [opOk, ownerOk] using hok)
   | svcDelete o => exact inv_svcDelete h o true (Or.inl rfl)
   | svcDeleteCut o => exact inv_svcDeleteCut h o
   | svcSync => exact inv_svcSync h (by simpa [opOk] using hok)
@@ -1240,6 +1269,27 @@ theorem svcCreate_links (s : St) (o : Own) (env : Option Bool) :
       cases clash <;> rfl
     · rw [e1.1]; left; rfl
 
+theorem svcCreateCut_links (s : St) (o : Own) (env : Option Bool) :
+    (svcCreateCut s o env).1.links = s.links ∨
+    ∃ a, (svcCreateCut s o env).1.links = s.links ++ [(.svip a, .own o)] ∧ lookup (.svip a) s.links = none ∧
+      devLookup o s.devs = none := by
+  unfold svcCreateCut
+  cases env with
+  | none => left; rfl
+  | some prod =>
+    simp only
+    rcases svcAddr_spec s o with ⟨a, e1, e2, e3, e4⟩ | ⟨d, a, e1, e2, e3⟩ | ⟨r, e1⟩
+    · rw [e1]; right; exact ⟨a, by simp, e3, e2⟩
+    · rw [e1]; simp only
+      cases hd : d.hasDev with
+      | true =>
+        simp only [↓reduceIte]
+        rcases svcCreate_links s o (some prod) with e | ⟨a', _, _, e'⟩
+        · left; exact e
+        · rw [e2] at e'; cases e'
+      | false => left; simp
+    · rw [e1.1]; left; rfl
+
 /-- **Every** operation (inside the domain or not) keeps names unique. -/
 theorem svcDeleteCut_links_sub (s : St) (o : Own) :
     ∀ e ∈ (svcDeleteCut s o).1.links, e ∈ s.links := by
@@ -1292,6 +1342,11 @@ theorem uniq_step (c : Cidr) {s : St} (h : Uniq s.links) (op : Op) : Uniq (step 
   | svcCreate o env =>
     simp only [step]
     rcases svcCreate_links s o env with e | ⟨a, e1, e2, _⟩
+    · rw [e]; exact h
+    · rw [e1]; exact h.append e2 _
+  | svcCreateCut o env =>
+    simp only [step]
+    rcases svcCreateCut_links s o env with e | ⟨a, e1, e2, _⟩
     · rw [e]; exact h
     · rw [e1]; exact h.append e2 _
   | svcDelete o => exact uniq_of_sub h (svcDelete_links_sub s o true)
